@@ -120,8 +120,10 @@ class FakeWriter:
             e, self.drain_error = self.drain_error, None
             raise e
         f = self.script.get("drain")
-        if f is not None and f(self):
-            await asyncio.sleep(0)
+        d = f(self) if f is not None else None
+        if d:
+            # flow control: the transport's buffer is above the high-water mark - for a moment, or for several seconds
+            await asyncio.sleep(d if isinstance(d, float) else 0)
 
     def close(self):
         self.closed = True
